@@ -89,7 +89,31 @@ def run(tier, seed):
     conc.normalize(raws2, n2)
     out2 = common.validate_into(res, n2, "Trace_KVLin.tla", "Trace_KVLin.cfg", ["NEWER", "WATCH"], devs, tab,
                                 os.path.join(wd, "lin"), {c["id"]: c for c in cases})
+    # replicas: the same kind of sequences issued on the primary of 2- and 3-node clusters (a newer database), every
+    # link FIFO, seeded random and FIFO delivery orders; at quiescence every node equals the primary
+    import cluster
+    from props import c04
+    ccases = []
+    for i in range(60 if tier == "quick" else 1500):
+        nodes = rnd.choice([["n1", "n2"], ["n1", "n2", "n3"]])
+        body = []
+        for _ in range(rnd.randint(1, 6)):
+            k = rnd.choice(["k1", "k2"])
+            if rnd.random() < 0.45:
+                op = {"op": "set", "k": k, "v": "p%d" % len(body)}
+            else:
+                op = {"op": "set-safe", "k": k, "v": "s%d" % len(body), "ver": rnd.choice([0, 0, 1, 2, 3, 9])}
+            body.append(cluster.client_op(nodes[0], nodes, op))
+        ccases.append(c04.build_case("n%d" % i, nodes, body, seed + i, "random" if i % 2 else "fifo", strategy="newer"))
+    wcl = os.path.join(wd, "cluster")
+    os.makedirs(wcl)
+    raws3 = common.run_cases_parallel("cluster", ccases, wcl, procs=12, timeout=3000, env={"NUN_ELECTION_TIMEOUT": "10"})
+    n3 = os.path.join(wcl, "norm.ndjson")
+    cluster.normalize(raws3, n3)
+    out3 = common.validate_into(res, n3, "Trace_Cluster.tla", "Trace_Cluster.cfg", ["CONV"], devs, "/dev/null", wcl,
+                                {c["id"]: c for c in ccases})
     res.coverage.update({
+        "replicated_runs": out3["runs"], "replicated_events_validated": out3["events"],
         "states": dist, "transitions": gen, "model": "NunKVConc.tla with Strategy = newer",
         "scenarios": len(scs),
         "traces_validated_against_impl": out1["runs"] + out2["runs"],
@@ -104,9 +128,10 @@ def run(tier, seed):
                 "through set_key_value (reply names the stored value), a watcher on one key; concurrent: "
                 "every pair of {set, set-safe at / below / above} from two clients under TLC-enumerated "
                 "interleavings; validated against NunKV / Trace_KVLin groups NEWER + WATCH (never refused, "
-                "stored value, version growth, notified exactly when the value changes)",
+                "stored value, version growth, notified exactly when the value changes); replicas: sequences of "
+                "1-6 such writes on the primary of 2- and 3-node clusters, FIFO and seeded random delivery orders, "
+                "every node equal to the primary at quiescence (Trace_Cluster group CONV)",
     })
-    res.assumptions = ["replica part (same writes applied in the primary's order) is checked by C04's "
-                       "cluster runs on newer databases",
+    res.assumptions = ["replica part: writes issued on the primary (writes issued on secondaries are C04)",
                        "operation ids come from a strictly increasing virtual clock"]
     return res, known
